@@ -107,6 +107,17 @@ class AbsExec:
         self.inline = inline or (lambda d: False)
         self.trace = []
 
+    def _freeze_idx(self, fr, proj):
+        """`&a[k]` designates the element k names *now*: an index known as an integer is kept as that integer (the index local may
+        change afterwards, and the reference may be followed from another frame)"""
+        out = []
+        for e in proj:
+            if isinstance(e, dict) and "idx" in e and not isinstance(fr.env.get(e["idx"], TOP), bool) and isinstance(fr.env.get(e["idx"], TOP), int):
+                out.append({"cidx": fr.env[e["idx"]], "from_end": False})
+            else:
+                out.append(e)
+        return out
+
     # ---------------------------------------------------------------- places
     def read_place(self, fr, pl):
         v = fr.env.get(pl["l"], TOP)
@@ -131,6 +142,8 @@ class AbsExec:
             elif isinstance(e, dict) and "cidx" in e:
                 if isinstance(v, Tup) and e["cidx"] < len(v.items):
                     v = v.items[e["cidx"]]
+                elif hasattr(self.domain, "index") and not e.get("from_end") and not isinstance(v, Tup):
+                    v = self.domain.index(self, v, e["cidx"])
                 else:
                     v = TOP
             elif isinstance(e, dict) and "down" in e:
@@ -201,6 +214,13 @@ class AbsExec:
                 items[i] = self._updated(fr, items[i], proj[1:], val)
                 return Tup(items)
             return TOP
+        if isinstance(e, dict) and "cidx" in e and not e.get("from_end"):
+            i = e["cidx"]
+            if isinstance(cur, Tup) and 0 <= i < len(cur.items):
+                items = list(cur.items)
+                items[i] = self._updated(fr, items[i], proj[1:], val)
+                return Tup(items)
+            return TOP
         if isinstance(e, dict) and "down" in e:
             return self._updated(fr, cur, proj[1:], val)
         return TOP
@@ -233,10 +253,10 @@ class AbsExec:
             if pl["p"][:1] == ["deref"]:
                 base = fr.env.get(pl["l"], TOP)
                 if isinstance(base, Ref):
-                    return Ref(base.frame, base.local, list(base.proj) + list(pl["p"][1:]))
+                    return Ref(base.frame, base.local, list(base.proj) + self._freeze_idx(fr, pl["p"][1:]))
                 # `&*v` where v already stands for the referent
                 return self._project(fr, base, pl["p"][1:])
-            return Ref(fr, pl["l"], pl["p"])
+            return Ref(fr, pl["l"], self._freeze_idx(fr, pl["p"]))
         if k == "cast":
             v = self.operand(fr, rv["op"])
             if isinstance(v, tuple) and len(v) == 2 and v[0] == "fnref":
